@@ -39,6 +39,7 @@ def run(ctx, R):
     list_walkers(F, R)
     from . import c10
     c10.blind_structure_reads(F, R, "C20")   # a Str cell is a list cell only if its functor is '.'/2
+    _c20_extra(F, R)                          # two strings order like the lists they denote: whole code points are compared
     R.rule("RF10/RF1: every tag dispatch that names Lis names PStrLoc (and conversely) or is a listed exception")
     n_both = 0
     n_one = 0
@@ -165,3 +166,8 @@ def list_walkers(F, R):
              "partial_string(\"ba\", L, T), T = [1,2], sort(L, S) raised type_error(list, ..) while the same list of cons cells sorts" % (name, sorted(tags)), F.where(fn))
         R.ob("C20:list-walkers:%s-walker-tail-classification" % name, inst and ty,
              "the %s walker must raise instantiation_error at an unbound tail and type_error(list, _) at any other non-list tail (inst=%s, type=%s)" % (name, inst, ty), F.where(fn))
+
+
+def _c20_extra(F, R):
+    from .c13 import pstr_utf8_window
+    pstr_utf8_window(F, R, "C20")
